@@ -97,7 +97,11 @@ fn run_instance_via(seed: Option<u64>, err_rate: f64, lat_rate: f64, min: u64, m
                 if via_clones {
                     let mut c = svc.clone();
                     let _ = futures::future::poll_fn(|cx| Service::<Req>::poll_ready(&mut c, cx)).await;
-                    c.call(req.clone()).await
+                    // (... and the response future is first polled 3 ms after call() returned it:
+                    // the injected latency counts from that first poll)
+                    let fut = c.call(req.clone());
+                    tokio::time::sleep(Duration::from_millis(3)).await;
+                    fut.await
                 } else {
                     let _ = futures::future::poll_fn(|cx| Service::<Req>::poll_ready(&mut svc, cx)).await;
                     svc.call(req.clone()).await
@@ -114,7 +118,7 @@ fn run_instance_via(seed: Option<u64>, err_rate: f64, lat_rate: f64, min: u64, m
         let mut latency = None;
         if reached {
             let c = &g.calls[before];
-            latency = Some(c.start_ms - t0);
+            latency = Some(c.start_ms - t0 - if via_clones { 3 } else { 0 });
             if c.req != req {
                 return Err(format!("request {i} changed on the way: inner saw {:?}", c.req));
             }
